@@ -1,6 +1,7 @@
 import Wasp.Model.Broker
 import Wasp.Properties.C13
 import Wasp.Properties.C11
+import Wasp.Proofs.BrokerD
 /-!
 # C12 — one live session per client identifier
 
@@ -16,7 +17,7 @@ import Wasp.Properties.C11
   session, on any node (it only writes entries keyed by its own session id).
 -/
 namespace Wasp.Broker
-open Wasp.Dist Wasp.Topic
+open Wasp.Dist Wasp.Topic Wasp.Broker.AgentD
 
 theorem C12_established (w : World) (c : String) (i : Nat) (hi : i < w.nodes.length) (client mount : String)
     (ka : Nat) (will : Option Will)
@@ -24,28 +25,52 @@ theorem C12_established (w : World) (c : String) (i : Nat) (hi : i < w.nodes.len
     (hother : ∀ md ∈ sessByClientID (w.node i).dist mount client, md.id ≠ "S" ++ c) :
     let w' := w.connect c i client mount true ka will
     ((w'.node i).sess ("S" ++ c)).isSome ∧ (c, Pkt.connack 0) ∈ w'.out := by
-  sorry
+  exact connect_established w c i hi client mount ka will hfresh hother
 
 /-- tearing down session `sid` writes only entries keyed by `sid` into the replicated state -/
 theorem C12_teardown_safe_sessions (w : World) (i : Nat) (s : Sess) (j : Nat) (sid' : String) (hne : sid' ≠ s.id) :
     sessLookup sid' ((teardown w i s).1.node j).dist.sessions = sessLookup sid' (w.node j).dist.sessions := by
-  sorry
+  exact (ds_teardown w i s j).1 sid' hne
 
 theorem C12_teardown_safe_subs (w : World) (i : Nat) (s : Sess) (j : Nat) (pat sid' : String) (hne : sid' ≠ s.id) :
     (subsLookup pat ((teardown w i s).1.node j).dist.subs).filter (fun u => u.session == sid') =
     (subsLookup pat (w.node j).dist.subs).filter (fun u => u.session == sid') := by
-  sorry
+  exact (ds_teardown w i s j).2 pat sid' hne
 
 /-- a PINGREQ of a session whose client id resolves elsewhere (or nowhere) ends it silently -/
 theorem C12_ping_displaced (w : World) (i : Nat) (sid : String) (s : Sess) (hs : (w.node i).sess sid = some s)
     (hd : ∀ md, (sessByClientID (w.node i).dist s.mount s.client).head? = some md → md.id ≠ sid) :
     w.process i sid .pingreq = (w, .disconnected) := by
-  sorry
+  unfold World.process
+  simp only [hs]
+  split
+  · rename_i md heq
+    have := hd md (by rw [heq]; rfl)
+    simp [this]
+  · rfl
+  · rename_i md _ _ heq
+    have := hd md (by rw [heq]; rfl)
+    simp [this]
 
 /-- … and a PINGREQ of the session the client id resolves to is answered -/
 theorem C12_ping_current (w : World) (i : Nat) (sid : String) (s : Sess) (hs : (w.node i).sess sid = some s)
     (md : SessionMD) (hd : (sessByClientID (w.node i).dist s.mount s.client).head? = some md) (hid : md.id = sid) :
     w.process i sid .pingreq = (w.emit s.conn .pingresp, .ok) := by
-  sorry
+  unfold World.process
+  simp only [hs]
+  split
+  · rename_i md' heq
+    rw [heq] at hd
+    simp only [List.head?_cons, Option.some.injEq] at hd
+    subst hd
+    simp [hid]
+  · rename_i heq
+    rw [heq] at hd
+    simp at hd
+  · rename_i md' _ _ heq
+    rw [heq] at hd
+    simp only [List.head?_cons, Option.some.injEq] at hd
+    subst hd
+    simp [hid]
 
 end Wasp.Broker
